@@ -288,7 +288,24 @@ theorem u16Bytes_eq (v : Int) : u16Bytes v = nameBytes v := rfl
 theorem length_supBytes (names : List Int) (X : List (Nat × Nat)) : (supBytes names X).length = 3 * X.length := by
   induction X with
   | nil => rfl
-  | cons e es ih => simp only [supBytes, List.flatMap_cons] at ih ⊢; simp [u16Bytes, ih]; omega
+  | cons e es ih =>
+    have : supBytes names (e :: es) = (UInt8.ofNat e.1 :: u16Bytes (names.getD e.2 0)) ++ supBytes names es := by
+      simp [supBytes, List.flatMap_cons]
+    rw [this, List.length_append, ih]
+    simp only [u16Bytes, List.length_cons, List.length_nil]
+    omega
+
+theorem lookup_none_of_not_mem (es : List (Nat × Nat)) (c : Nat) (h : c ∉ es.map (·.1)) :
+    es.lookup c = none := by
+  induction es with
+  | nil => rfl
+  | cons e es ih =>
+    obtain ⟨k, v⟩ := e
+    simp only [List.map_cons, List.mem_cons, not_or] at h
+    simp only [List.lookup_cons]
+    have : (c == k) = false := by simpa using h.1
+    simp only [this]
+    exact ih h.2
 
 theorem readSups_spec (names : List Int) (hnd : names.Nodup) (hr : ∀ x ∈ names, 0 ≤ x ∧ x ≤ 65535)
     (hn16 : names.length ≤ 65536) :
@@ -349,12 +366,7 @@ theorem readSups_spec (names : List Int) (hnd : names.Nodup) (hr : ∀ x ∈ nam
     simp only [List.lookup_cons]
     by_cases hc : c = cd
     · subst hc
-      have : es.lookup c = none := by
-        rw [List.lookup_eq_none_iff]
-        intro x hx heq
-        apply hnodup.1
-        have : x.1 = c := by simpa using heq
-        rw [← this]; exact List.mem_map_of_mem hx
+      have : es.lookup c = none := lookup_none_of_not_mem es c hnodup.1
       simp [this, getD_set, h2]
     · have hc' : (c == cd) = false := by simpa using hc
       simp only [hc']
@@ -365,5 +377,420 @@ theorem readSups_spec (names : List Int) (hnd : names.Nodup) (hr : ∀ x ∈ nam
         rw [getD_set]
         have : ¬ (cd = c ∧ cd < res.length) := fun h => hc h.1.symm
         simp [this]
+
+
+/-! ### the scan of `encodeEncoding` -/
+
+theorem getD_snoc_lt (l : List Nat) (g c : Nat) (h : c < l.length) : (l ++ [g]).getD c 0 = l.getD c 0 := by
+  simp [List.getD_eq_getElem?_getD, List.getElem?_append_left h]
+
+theorem getD_snoc_eq (l : List Nat) (g : Nat) : (l ++ [g]).getD l.length 0 = g := by
+  simp [List.getD_eq_getElem?_getD]
+
+/-- what the scan has established after the codes `0 … l.length-1` -/
+structure ScanInv (l : List Nat) (codes extra : List (Nat × Nat)) (mx : Nat) : Prop where
+  some_iff : ∀ g c, codes.lookup g = some c ↔
+    (c < l.length ∧ l.getD c 0 = g ∧ g ≠ 0 ∧ ∀ c', c' < c → l.getD c' 0 ≠ g)
+  none_imp : ∀ g, g ≠ 0 → codes.lookup g = none → ∀ c, c < l.length → l.getD c 0 ≠ g
+  extra_mem : ∀ e ∈ extra, e.1 < l.length ∧ l.getD e.1 0 = e.2 ∧ e.2 ≠ 0 ∧ ∃ c0, c0 < e.1 ∧ l.getD c0 0 = e.2
+  extra_nodup : (extra.map (·.1)).Nodup
+  complete : ∀ c, c < l.length → l.getD c 0 ≠ 0 →
+    (∀ c', c' < c → l.getD c' 0 ≠ l.getD c 0) ∨ (c, l.getD c 0) ∈ extra
+  mx_ge : ∀ c, c < l.length → l.getD c 0 ≤ mx
+  mx_att : mx = 0 ∨ ∃ c, c < l.length ∧ l.getD c 0 = mx
+  count : extra.length + codes.length ≤ l.length
+
+theorem scanInv_nil : ScanInv [] [] [] 0 where
+  some_iff := by intro g c; simp
+  none_imp := by intro g _ _ c hc; simp at hc
+  extra_mem := by intro e he; simp at he
+  extra_nodup := by simp
+  complete := by intro c hc; simp at hc
+  mx_ge := by intro c hc; simp at hc
+  mx_att := Or.inl rfl
+  count := by simp
+
+theorem scanInv_step (l : List Nat) (codes extra : List (Nat × Nat)) (mx g : Nat)
+    (hl : l.length < 256) (inv : ScanInv l codes extra mx) :
+    let st := scanEncoding l.length [g] codes extra mx
+    ScanInv (l ++ [g]) st.1 st.2.1 st.2.2 := by
+  have hlen : (l ++ [g]).length = l.length + 1 := by simp
+  have hmod : l.length % 256 = l.length := Nat.mod_eq_of_lt hl
+  by_cases hg : g = 0
+  · subst hg
+    simp only [scanEncoding, if_true]
+    exact {
+      some_iff := by
+        intro g c
+        rw [inv.some_iff g c, hlen]
+        constructor
+        · rintro ⟨h1, h2, h3, h4⟩
+          refine ⟨by omega, by rw [getD_snoc_lt l 0 c h1]; exact h2, h3, ?_⟩
+          intro c' hc'; rw [getD_snoc_lt l 0 c' (by omega)]; exact h4 c' hc'
+        · rintro ⟨h1, h2, h3, h4⟩
+          have hc : c < l.length := by
+            rcases Nat.lt_or_ge c l.length with h | h
+            · exact h
+            · have : c = l.length := by omega
+              subst this; rw [getD_snoc_eq] at h2; exact absurd h2.symm h3
+          refine ⟨hc, by rw [← getD_snoc_lt l 0 c hc]; exact h2, h3, ?_⟩
+          intro c' hc'; rw [← getD_snoc_lt l 0 c' (by omega)]; exact h4 c' hc'
+      none_imp := by
+        intro g hg hn c hc
+        rw [hlen] at hc
+        rcases Nat.lt_or_ge c l.length with h | h
+        · rw [getD_snoc_lt l 0 c h]; exact inv.none_imp g hg hn c h
+        · have : c = l.length := by omega
+          subst this; rw [getD_snoc_eq]; exact fun h => hg h.symm
+      extra_mem := by
+        intro e he
+        obtain ⟨h1, h2, h3, c0, h4, h5⟩ := inv.extra_mem e he
+        refine ⟨by rw [hlen]; omega, by rw [getD_snoc_lt l 0 _ h1]; exact h2, h3, c0, h4, ?_⟩
+        rw [getD_snoc_lt l 0 _ (by omega)]; exact h5
+      extra_nodup := inv.extra_nodup
+      complete := by
+        intro c hc hne
+        rw [hlen] at hc
+        rcases Nat.lt_or_ge c l.length with h | h
+        · rw [getD_snoc_lt l 0 c h] at hne ⊢
+          rcases inv.complete c h hne with h' | h'
+          · left; intro c' hc'; rw [getD_snoc_lt l 0 c' (by omega)]; exact h' c' hc'
+          · right; exact h'
+        · have : c = l.length := by omega
+          subst this; rw [getD_snoc_eq] at hne; exact absurd rfl hne
+      mx_ge := by
+        intro c hc
+        rw [hlen] at hc
+        rcases Nat.lt_or_ge c l.length with h | h
+        · rw [getD_snoc_lt l 0 c h]; exact inv.mx_ge c h
+        · have : c = l.length := by omega
+          subst this; rw [getD_snoc_eq]; omega
+      mx_att := by
+        rcases inv.mx_att with h | ⟨c, h1, h2⟩
+        · exact Or.inl h
+        · exact Or.inr ⟨c, by rw [hlen]; omega, by rw [getD_snoc_lt l 0 c h1]; exact h2⟩
+      count := by have := inv.count; rw [hlen]; omega }
+  · cases hlk : codes.lookup g with
+    | some c0 =>
+      simp only [scanEncoding, hg, if_false, hlk, hmod]
+      obtain ⟨k1, k2, k3, k4⟩ := (inv.some_iff g c0).mp hlk
+      exact {
+        some_iff := by
+          intro g' c
+          rw [inv.some_iff g' c, hlen]
+          constructor
+          · rintro ⟨h1, h2, h3, h4⟩
+            refine ⟨by omega, by rw [getD_snoc_lt l g c h1]; exact h2, h3, ?_⟩
+            intro c' hc'; rw [getD_snoc_lt l g c' (by omega)]; exact h4 c' hc'
+          · rintro ⟨h1, h2, h3, h4⟩
+            have hc : c < l.length := by
+              rcases Nat.lt_or_ge c l.length with h | h
+              · exact h
+              · have : c = l.length := by omega
+                subst this
+                rw [getD_snoc_eq] at h2
+                subst h2
+                have := h4 c0 k1
+                rw [getD_snoc_lt l g c0 k1] at this
+                exact absurd k2 this
+            refine ⟨hc, by rw [← getD_snoc_lt l g c hc]; exact h2, h3, ?_⟩
+            intro c' hc'; rw [← getD_snoc_lt l g c' (by omega)]; exact h4 c' hc'
+        none_imp := by
+          intro g' hg' hn c hc
+          rw [hlen] at hc
+          rcases Nat.lt_or_ge c l.length with h | h
+          · rw [getD_snoc_lt l g c h]; exact inv.none_imp g' hg' hn c h
+          · have : c = l.length := by omega
+            subst this; rw [getD_snoc_eq]
+            intro heq; subst heq; rw [hlk] at hn; cases hn
+        extra_mem := by
+          intro e he
+          rcases List.mem_append.mp he with he | he
+          · obtain ⟨h1, h2, h3, c1, h4, h5⟩ := inv.extra_mem e he
+            refine ⟨by rw [hlen]; omega, by rw [getD_snoc_lt l g _ h1]; exact h2, h3, c1, h4, ?_⟩
+            rw [getD_snoc_lt l g _ (by omega)]; exact h5
+          · simp only [List.mem_singleton] at he
+            subst he
+            refine ⟨by rw [hlen]; exact Nat.lt_succ_self _, getD_snoc_eq l g, hg, c0, k1, ?_⟩
+            rw [getD_snoc_lt l g c0 k1]; exact k2
+        extra_nodup := by
+          rw [List.map_append, List.nodup_append]
+          refine ⟨inv.extra_nodup, by simp, ?_⟩
+          intro a ha b hb
+          simp only [List.map_cons, List.map_nil, List.mem_singleton] at hb
+          obtain ⟨e, he, rfl⟩ := List.mem_map.mp ha
+          have := (inv.extra_mem e he).1
+          omega
+        complete := by
+          intro c hc hne
+          rw [hlen] at hc
+          rcases Nat.lt_or_ge c l.length with h | h
+          · rw [getD_snoc_lt l g c h] at hne ⊢
+            rcases inv.complete c h hne with h' | h'
+            · left; intro c' hc'; rw [getD_snoc_lt l g c' (by omega)]; exact h' c' hc'
+            · right; exact List.mem_append_left _ h'
+          · have : c = l.length := by omega
+            subst this
+            right
+            rw [getD_snoc_eq]
+            exact List.mem_append_right _ (List.mem_singleton.mpr rfl)
+        mx_ge := by
+          intro c hc
+          rw [hlen] at hc
+          rcases Nat.lt_or_ge c l.length with h | h
+          · rw [getD_snoc_lt l g c h]; exact inv.mx_ge c h
+          · have : c = l.length := by omega
+            subst this; rw [getD_snoc_eq]
+            have := inv.mx_ge c0 k1; omega
+        mx_att := by
+          rcases inv.mx_att with h | ⟨c, h1, h2⟩
+          · exact Or.inl h
+          · exact Or.inr ⟨c, by rw [hlen]; omega, by rw [getD_snoc_lt l g c h1]; exact h2⟩
+        count := by have := inv.count; rw [hlen]; simp only [List.length_append, List.length_cons, List.length_nil]; omega }
+    | none =>
+      simp only [scanEncoding, hg, if_false, hlk, hmod]
+      have hnone := inv.none_imp g hg hlk
+      exact {
+        some_iff := by
+          intro g' c
+          rw [List.lookup_append, hlen]
+          constructor
+          · intro h
+            cases hl' : codes.lookup g' with
+            | some c1 =>
+              rw [hl'] at h
+              simp only [Option.or] at h
+              injection h with h; subst h
+              obtain ⟨h1, h2, h3, h4⟩ := (inv.some_iff g' c1).mp hl'
+              refine ⟨by omega, by rw [getD_snoc_lt l g c1 h1]; exact h2, h3, ?_⟩
+              intro c' hc'; rw [getD_snoc_lt l g c' (by omega)]; exact h4 c' hc'
+            | none =>
+              rw [hl'] at h
+              simp only [Option.or, List.lookup_cons, List.lookup_nil] at h
+              by_cases hgg : g' = g
+              · subst hgg
+                simp at h
+                subst h
+                refine ⟨Nat.lt_succ_self _, getD_snoc_eq l g', hg, ?_⟩
+                intro c' hc'; rw [getD_snoc_lt l g' c' hc']; exact hnone c' hc'
+              · have : (g' == g) = false := by simpa using hgg
+                simp [this] at h
+          · rintro ⟨h1, h2, h3, h4⟩
+            rcases Nat.lt_or_ge c l.length with h | h
+            · have : codes.lookup g' = some c := (inv.some_iff g' c).mpr
+                ⟨h, by rw [← getD_snoc_lt l g c h]; exact h2, h3,
+                 fun c' hc' => by rw [← getD_snoc_lt l g c' (by omega)]; exact h4 c' hc'⟩
+              rw [this]; rfl
+            · have hc : c = l.length := by omega
+              subst hc
+              rw [getD_snoc_eq] at h2
+              subst h2
+              rw [hlk]
+              simp
+        none_imp := by
+          intro g' hg' hn c hc
+          rw [List.lookup_append] at hn
+          have hn1 : codes.lookup g' = none := by
+            cases h : codes.lookup g' with
+            | none => rfl
+            | some v => rw [h] at hn; simp at hn
+          have hgg : g' ≠ g := by
+            intro heq; subst heq
+            rw [hn1] at hn; simp at hn
+          rw [hlen] at hc
+          rcases Nat.lt_or_ge c l.length with h | h
+          · rw [getD_snoc_lt l g c h]; exact inv.none_imp g' hg' hn1 c h
+          · have : c = l.length := by omega
+            subst this; rw [getD_snoc_eq]; exact fun h => hgg h.symm
+        extra_mem := by
+          intro e he
+          obtain ⟨h1, h2, h3, c1, h4, h5⟩ := inv.extra_mem e he
+          refine ⟨by rw [hlen]; omega, by rw [getD_snoc_lt l g _ h1]; exact h2, h3, c1, h4, ?_⟩
+          rw [getD_snoc_lt l g _ (by omega)]; exact h5
+        extra_nodup := inv.extra_nodup
+        complete := by
+          intro c hc hne
+          rw [hlen] at hc
+          rcases Nat.lt_or_ge c l.length with h | h
+          · rw [getD_snoc_lt l g c h] at hne ⊢
+            rcases inv.complete c h hne with h' | h'
+            · left; intro c' hc'; rw [getD_snoc_lt l g c' (by omega)]; exact h' c' hc'
+            · right; exact h'
+          · have : c = l.length := by omega
+            subst this
+            left
+            intro c' hc'
+            rw [getD_snoc_eq, getD_snoc_lt l g c' hc']
+            exact hnone c' hc'
+        mx_ge := by
+          intro c hc
+          rw [hlen] at hc
+          rcases Nat.lt_or_ge c l.length with h | h
+          · rw [getD_snoc_lt l g c h]
+            have := inv.mx_ge c h
+            split <;> omega
+          · have : c = l.length := by omega
+            subst this; rw [getD_snoc_eq]
+            split <;> omega
+        mx_att := by
+          right
+          by_cases hgm : g > mx
+          · simp only [hgm, if_true]
+            exact ⟨l.length, by rw [hlen]; exact Nat.lt_succ_self _, getD_snoc_eq l g⟩
+          · simp only [hgm, if_false]
+            rcases inv.mx_att with h | ⟨c, h1, h2⟩
+            · exfalso; omega
+            · exact ⟨c, by rw [hlen]; omega, by rw [getD_snoc_lt l g c h1]; exact h2⟩
+        count := by have := inv.count; rw [hlen]; simp only [List.length_append, List.length_cons, List.length_nil]; omega }
+
+
+theorem scan_cons (p g : Nat) (rest : List Nat) (codes extra : List (Nat × Nat)) (mx : Nat) :
+    scanEncoding p (g :: rest) codes extra mx =
+      scanEncoding (p + 1) rest (scanEncoding p [g] codes extra mx).1
+        (scanEncoding p [g] codes extra mx).2.1 (scanEncoding p [g] codes extra mx).2.2 := by
+  simp only [scanEncoding]
+  split
+  · rfl
+  · split <;> rfl
+
+theorem scanInv_all : ∀ (rest l : List Nat) (codes extra : List (Nat × Nat)) (mx : Nat),
+    l.length + rest.length ≤ 256 → ScanInv l codes extra mx →
+    ScanInv (l ++ rest) (scanEncoding l.length rest codes extra mx).1
+      (scanEncoding l.length rest codes extra mx).2.1 (scanEncoding l.length rest codes extra mx).2.2 := by
+  intro rest
+  induction rest with
+  | nil => intro l codes extra mx _ inv; simpa [scanEncoding] using inv
+  | cons g rest ih =>
+    intro l codes extra mx hlen inv
+    rw [scan_cons]
+    have hstep := scanInv_step l codes extra mx g (by simp at hlen; omega) inv
+    have := ih (l ++ [g]) _ _ _ (by simp at hlen ⊢; omega) hstep
+    simp only [List.length_append, List.length_cons, List.length_nil, Nat.zero_add, List.append_assoc,
+      List.singleton_append] at this
+    exact this
+
+/-- the state of `encodeEncoding` after its first loop -/
+theorem scanInv_enc (enc : List Nat) (h : enc.length ≤ 256) :
+    ScanInv enc (scanEncoding 0 enc [] [] 0).1 (scanEncoding 0 enc [] [] 0).2.1 (scanEncoding 0 enc [] [] 0).2.2 := by
+  have := scanInv_all enc [] [] [] 0 (by simpa using h) scanInv_nil
+  simpa using this
+
+
+/-! ### the segment loop -/
+
+/-- the codes covered by a list of format-1 ranges, in order -/
+def expandN (ss : List (Nat × Nat)) : List Nat := ss.flatMap fun s => List.range' s.1 (s.2 + 1)
+
+theorem expandN_snoc (acc : List (Nat × Nat)) (s : Nat × Nat) :
+    expandN (acc ++ [s]) = expandN acc ++ List.range' s.1 (s.2 + 1) := by
+  simp [expandN, List.flatMap_append]
+
+theorem segCodes_eq (ss : List (Nat × Nat)) : segCodes ss = (expandN ss).map UInt8.ofNat := by
+  simp [segCodes, expandN, codeRange, List.map_flatMap]
+
+theorem sub16u8_eq (a b : Nat) (hb : b ≤ a) (ha : a < 65536) (hd : a - b < 256) : sub16u8 a b = a - b := by
+  unfold sub16u8
+  have h1 : b % 65536 = b := Nat.mod_eq_of_lt (by omega)
+  rw [h1]
+  have h2 : (a + 65536 - b) % 65536 = a - b := by
+    have : a + 65536 - b = (a - b) + 65536 := by omega
+    rw [this, Nat.add_mod_right, Nat.mod_eq_of_lt (by omega)]
+  rw [h2, Nat.mod_eq_of_lt hd]
+
+theorem segLoop_spec (codes : List (Nat × Nat)) (K : Nat) (cf : Nat → Nat) (hK : 1 ≤ K) (hK16 : K < 65536)
+    (hlook : ∀ g, 1 ≤ g → g ≤ K → codes.lookup g = some (cf g) ∧ cf g < 256) :
+    ∀ (fuel gid startGid startCode : Nat) (acc : List (Nat × Nat)),
+      fuel + gid = K + 1 → 1 ≤ startGid → startGid ≤ gid → startGid ≤ K →
+      cf startGid = startCode →
+      (∀ g, startGid ≤ g → g < gid → cf g = startCode + (g - startGid)) →
+      expandN acc ++ List.range' startCode (gid - startGid) = (List.range' 1 (gid - 1)).map cf →
+      (∀ s ∈ acc, s.1 + s.2 ≤ 255) →
+      ∃ ss, segLoop codes K fuel gid startGid startCode acc = .ok ss ∧
+        expandN ss = (List.range' 1 K).map cf ∧ (∀ s ∈ ss, s.1 + s.2 ≤ 255) := by
+  intro fuel
+  induction fuel with
+  | zero =>
+    intro gid startGid startCode acc hf h1 h2 h3 hsc hrun hexp hacc
+    have hg : gid = K + 1 := by omega
+    subst hg
+    have hKr := hrun K h3 (by omega)
+    have hKc := (hlook K hK (Nat.le_refl _)).2
+    have hsub : sub16u8 K startGid = K - startGid := sub16u8_eq K startGid h3 hK16 (by omega)
+    refine ⟨_, rfl, ?_, ?_⟩
+    · rw [expandN_snoc, hsub]
+      simp only
+      have : K - startGid + 1 = K + 1 - startGid := by omega
+      rw [this, hexp]
+      simp
+    · intro s hs
+      rcases List.mem_append.mp hs with h | h
+      · exact hacc s h
+      · simp only [List.mem_singleton] at h
+        subst h
+        simp only [hsub]; omega
+  | succ fuel ih =>
+    intro gid startGid startCode acc hf h1 h2 h3 hsc hrun hexp hacc
+    have hgK : gid ≤ K := by omega
+    have hg1 : 1 ≤ gid := by omega
+    obtain ⟨hl, hc⟩ := hlook gid hg1 hgK
+    simp only [segLoop, hl]
+    by_cases hcmp : ((gid : Int) - startGid) ≠ (cf gid : Int) - startCode
+    · rw [if_pos hcmp]
+      have hgt : startGid < gid := by
+        rcases Nat.lt_or_ge startGid gid with h | h
+        · exact h
+        · have : gid = startGid := by omega
+          subst this
+          exfalso; apply hcmp; rw [hsc]; omega
+      have hprev := hrun (gid - 1) (by omega) (by omega)
+      have hprevc := (hlook (gid - 1) (by omega) (by omega)).2
+      have hsub : sub16u8 gid (startGid + 1) = gid - startGid - 1 := by
+        rw [sub16u8_eq gid (startGid + 1) (by omega) (by omega) (by omega)]; omega
+      rw [hsub]
+      apply ih (gid + 1) gid (cf gid) (acc ++ [(startCode, gid - startGid - 1)]) (by omega) hg1 (by omega) hgK rfl
+      · intro g hg hg'
+        have : g = gid := by omega
+        subst this; simp
+      · rw [expandN_snoc]
+        simp only
+        have e1 : gid - startGid - 1 + 1 = gid - startGid := by omega
+        have e2 : gid + 1 - gid = 1 := by omega
+        have e3 : gid + 1 - 1 = (gid - 1) + 1 := by omega
+        rw [e1, hexp, e2, e3]
+        have r1 : List.range' (cf gid) 1 = [cf gid] := by simp [List.range']
+        have r2 : List.range' 1 (gid - 1 + 1) = List.range' 1 (gid - 1) ++ [gid] := by
+          rw [List.range'_concat]; simp; omega
+        rw [r1, r2, List.map_append]
+        rfl
+      · intro s hs
+        rcases List.mem_append.mp hs with h | h
+        · exact hacc s h
+        · simp only [List.mem_singleton] at h
+          subst h
+          simp only; omega
+    · rw [if_neg hcmp]
+      have heq : cf gid = startCode + (gid - startGid) := by
+        have : ((gid : Int) - startGid) = (cf gid : Int) - startCode := by
+          rcases Classical.em (((gid : Int) - startGid) = (cf gid : Int) - startCode) with h | h
+          · exact h
+          · exact absurd h hcmp
+        omega
+      apply ih (gid + 1) startGid startCode acc (by omega) h1 (by omega) h3 hsc
+      · intro g hg hg'
+        rcases Nat.lt_or_ge g gid with h | h
+        · exact hrun g hg h
+        · have : g = gid := by omega
+          subst this; exact heq
+      · have e1 : gid + 1 - startGid = (gid - startGid) + 1 := by omega
+        have e3 : gid + 1 - 1 = (gid - 1) + 1 := by omega
+        rw [e1, e3]
+        have r1 : List.range' startCode (gid - startGid + 1)
+            = List.range' startCode (gid - startGid) ++ [startCode + (gid - startGid)] := by
+          rw [List.range'_concat]; simp
+        have r2 : List.range' 1 (gid - 1 + 1) = List.range' 1 (gid - 1) ++ [gid] := by
+          rw [List.range'_concat]; simp; omega
+        rw [r1, r2, ← List.append_assoc, hexp, List.map_append, ← heq]
+        rfl
+      · exact hacc
 
 end SfntV.Cff
